@@ -330,7 +330,17 @@ class Program:
                             continue
                         recv_name, self_param, order = sp
                         prefix, ren = rename(h, recv_name, self_param, [pn for pn, _ in order])
-                        pre = [ast.copy_location(ast.Assign(targets=[ast.copy_location(ast.Name(id=ren[pn], ctx=ast.Store()), site)], value=av, type_comment=None), site) for pn, av in order]
+                        # a parameter of the helper that is given a parameter of the caller - neither of them rebound - IS that name
+                        # (no alias local: rules that know the caller's gateway arguments by name keep seeing them)
+                        caller_params = {a_.arg for a_ in fn.node.args.posonlyargs + fn.node.args.args + fn.node.args.kwonlyargs}
+                        stored_fn = {x.id for x in ast.walk(fn.node) if isinstance(x, ast.Name) and isinstance(x.ctx, (ast.Store, ast.Del))}
+                        stored_h = {x.id for x in ast.walk(h.node) if isinstance(x, ast.Name) and isinstance(x.ctx, (ast.Store, ast.Del))}
+                        direct = set()
+                        for pn, av in order:
+                            if isinstance(av, ast.Name) and av.id in caller_params and av.id not in stored_fn and pn not in stored_h:
+                                ren[pn] = av.id
+                                direct.add(pn)
+                        pre = [ast.copy_location(ast.Assign(targets=[ast.copy_location(ast.Name(id=ren[pn], ctx=ast.Store()), site)], value=av, type_comment=None), site) for pn, av in order if pn not in direct]
                         if is_yf:
                             # ---- N8
                             if not h.is_generator() or isinstance(h.node, ast.AsyncFunctionDef) or isinstance(fn.node, ast.AsyncFunctionDef) or any(isinstance(x, ast.Return) for x in ast.walk(h.node)):
